@@ -334,6 +334,9 @@ def skip_to_end(ops, i, depth=1):
     return i
 
 
+_UNWIND = [0]
+
+
 def interpret(ops, env, binding):
     """Flat interpreter equivalent to nested `with s.bind():` blocks.  One output line per op.
     An exception (token `raise`, a client call that raises, or an exception out of a block's own
@@ -344,11 +347,16 @@ def interpret(ops, env, binding):
 
     def unwind(i):
         depth = len(stack)
+        # what leaves the block is not always an `Exception`: a generator / routine suspended inside the
+        # block that is closed raises GeneratorExit there, Ctrl-C raises KeyboardInterrupt, sys.exit
+        # SystemExit.  "not at all if the block raises" covers them all.
+        _UNWIND[0] += 1
+        exc_cls = (Boom, GeneratorExit, KeyboardInterrupt, SystemExit)[_UNWIND[0] % 4]
         while stack:
             cm = stack.pop()
             if cm is not None:
                 try:
-                    cm.__exit__(Boom, Boom('x'), None)
+                    cm.__exit__(exc_cls, exc_cls('x'), None)
                 except Exception:
                     pass
         while i < len(ops) and depth > 0:
